@@ -120,7 +120,7 @@ Lemma pstep1_sim c p m o :
   exists p', pstep1 c p o = (p', snd (step1 c m o)) /\ PRel p' (fst (step1 c m o)).
 Proof.
   intros Hmax I R. pose proof I as [NR NS SAME LEN CAP SOFT]. pose proof R as [ES RR EH EM ESo EC].
-  destruct o as [k v|k|k d|k d|k|k d| | |e f|e|k| | | |d|d]; simpl pstep1; simpl step1.
+  destruct o as [k v|k|k d|k d|k|k d| | |e f|e|k| | | |d|d|f| |]; simpl pstep1; simpl step1.
   - (* SetItem *)
     destruct (psetitem_sim c p m k v Hmax I R) as [p' [E R']]. rewrite E.
     destruct (setitem c m k v) as [m' [[]|ex]]; simpl in *; eauto.
@@ -172,6 +172,10 @@ Proof.
   - rewrite ES. simpl. eauto.
   - rewrite (pcache_eq_eq p m d R). simpl. eauto.
   - rewrite (pcache_eq_eq p m d R). simpl. eauto.
+  - destruct (psetitems_sim c f p m Hmax I R) as [p' [E R']]. rewrite E.
+    destruct (setitems c m f) as [m' [[]|ex]]; simpl in *; eauto.
+  - simpl. eauto.
+  - simpl. eauto.
 Qed.
 
 (* ---- heaps of caches ---------------------------------------------------------------------------- *)
@@ -273,4 +277,45 @@ Lemma pagree_implies_holds c init steps :
   1 <= c_max c -> pagree_check c init steps = true -> spec_check c init steps = true.
 Proof.
   intros Hmax H. rewrite pagree_check_eq in H by assumption. now apply agree_implies_holds.
+Qed.
+
+(* ---- every reachable pointer-level state represents the list-level state ------------------ *)
+Lemma fst_phobserve c ph o : fst (phobserve c ph o) = fst (fst (phstep c ph o)).
+Proof. unfold phobserve. destruct (phstep c ph o) as [[h' i] out]. reflexivity. Qed.
+
+Lemma fst_hobserve c h o : fst (hobserve c h o) = fst (fst (hstep c h o)).
+Proof. unfold hobserve. destruct (hstep c h o) as [[h' i] out]. reflexivity. Qed.
+
+Lemma prun_heap_from_rel c ops : forall ph h,
+  1 <= c_max c -> Forall (Inv c) h -> Forall2 PRel ph h ->
+  Forall2 PRel (prun_heap_from c ph ops) (run_heap_from c h ops).
+Proof.
+  induction ops as [|o rest IH]; intros ph h Hmax FI F; simpl; [exact F|].
+  apply IH; [assumption|now apply hstep_inv|].
+  destruct (phobserve_sim c ph h o Hmax FI F) as [_ F']. now rewrite fst_phobserve, fst_hobserve in F'.
+Qed.
+
+Lemma prun_heap_rel c init ops :
+  1 <= c_max c -> Forall2 PRel (prun_heap c init ops) (run_heap c init ops).
+Proof.
+  intro Hmax. unfold prun_heap, run_heap, pinit_cache, init_cache.
+  destruct (psetitems_sim c init p_empty empty_cache Hmax (inv_empty c) prel_empty) as [p [E R]].
+  destruct (setitems_sim c init empty_cache Hmax (inv_empty c)) as [m [Em [I _]]].
+  rewrite E, Em in *. simpl in *. apply prun_heap_from_rel; auto.
+Qed.
+
+(* ---- the verdict computed by Check/C02_Check.v: agree implies holds, for every case ----- *)
+From Boltons Require Import Check.C02_Check.
+
+Lemma ctor_same max ok : ctor_outcome max ok = spec_ctor max ok.
+Proof. unfold ctor_outcome, spec_ctor. destruct max; simpl; [reflexivity|]. now destruct ok. Qed.
+
+Lemma verdict_sound k : c02_agree k = true -> c02_holds k = true.
+Proof.
+  unfold c02_agree, c02_holds. rewrite ctor_same. intro H.
+  apply andb_true_iff in H as [H1 H2]. rewrite H1. simpl.
+  destruct (k_ctor k) as [e|] eqn:E; [exact H2|].
+  apply pagree_implies_holds; [|exact H2].
+  unfold spec_ctor in H1. unfold case_cfg. simpl.
+  destruct (k_max k); simpl in *; [discriminate|lia].
 Qed.
